@@ -10,7 +10,8 @@ import (
 
 // TS24.501 9.11.2.8 S-NSSAI
 func SnssaiToModels(nasSnssai *nasType.SNSSAI) (snssai models.Snssai) {
-	if nasSnssai.GetLen() == uint8(4) {
+	// the SD is present in the 4, 5 and 8 octet forms (SST+SD, +mapped SST, +mapped SD)
+	if l := nasSnssai.GetLen(); l == 4 || l == 5 || l == 8 {
 		sD := nasSnssai.GetSD()
 		snssai.Sd = hex.EncodeToString(sD[:])
 	}
